@@ -2125,7 +2125,7 @@ verdict_t check_fit(const fit_case_t& c, ctx_t& ctx)
     const auto cls = cat(kind, (loss->smooth() && !l1) ? "" : "/nonsmooth", partitions ? "/partition-learners" : "");
     ctx.maximum(cat("deviation/", cls), structural.empty() ? worst : 1e9);
 
-    if (comparable && (!structural.empty() || worst > 10.0))
+    if (comparable && (!structural.empty() || worst > 1.0)) // 1e-5 relative is the property's own bound: no further band
     {
         const auto sig = cat("C18/fit/", group, "/", structural.empty() ? "predictions-differ" : structural);
         const auto msg = cat(kind, " loss ", loss_id_of(c.cfg, target_kind), ": ", describe_config(0), " ", describe_outcome(ref), "; ", describe_config(worst_at), " ",
